@@ -3,7 +3,7 @@
 M1: RoundingLemmas (the oracle's checker and functional forms agree on a small universe).
 M3: real-size events through four entry levels (libmp function, operator, f-function with
     prec/rounding/exact keywords, constructor), each judged by TLC with MpfPost on limbs."""
-from .. import machine, core, gen, cases, arith
+from .. import selftest, machine, core, gen, cases, arith
 from . import common
 
 PROP = "C02"; LEVEL = "model_checking"
@@ -14,6 +14,8 @@ def main():
     mp = core.use_repo()
     runner = cases.Runner(mp)
     common.run_models(chk, [("RoundingLemmas", "RoundingLemmas_quick.cfg", "RoundingLemmas_thorough.cfg")])
+    selftest.corrupt_arith(chk, runner)
+    selftest.model_mutants(chk, [("MpfMachine", "MpfMachine_mutG.cfg", "AlgoMeetsPost"), ("MpfMachine", "MpfMachine_mutDX.cfg", "AlgoMeetsPost")])
     machine.run(chk, mp)
     machine.run_unary(chk, mp, [("MpfMachine", "MpfMachine_sqrt_%s.cfg" % chk.pick("quick", "thorough"), "exact", True)]
                       + chk.pick([], [("MpfMachineL", "MpfMachineL_sqrt.cfg", "real", True)]))
